@@ -1,6 +1,6 @@
 # C06 Type registry hands out unique, stable, correctly described types
 ASSUMPTIONS = ["registry state is the fresh process state (static tables); atexit is a no-op",
-               "range exhaustion (64 / 64 / 1792 / 1791 registrations) is outside the bound"]
+               "range exhaustion: one registration from a directly constructed fill level (type_traits.c included textually to reach its file-static tables); histories that long are outside the bound"]
 UNITS = ["mptcore/types/type_traits.c", "mptcore/misc/identifier.c", "mptcore/array/array_traits.c",
          "mptcore/meta/meta_reference_traits.c", "mptcore/event/command_traits.c", "mptcore/array/array_clone.c"]
 FP = [(r".", ["h_none"])]
@@ -9,7 +9,18 @@ FP = [(r".", ["h_none"])]
 def queries(tier):
     k = 2 if tier == "quick" else 4
     common = dict(units=UNITS, stubs=["libc.c", "libc_loops.c"], flags=["--max-field-sensitivity-array-size", "300"])
-    return [
+    ex = []
+    for (kind, nm, rng) in ((0, "metatype", "0x100..0x7ff"), (1, "generic", "0x900..0xfff")):
+        for nfull in ((59, 58) if tier == "quick" else (0, 1, 30, 57, 58, 59)):
+            ex.append(Q("exhaust_%s_c%d" % (nm, nfull), "C06/exhaust.c", units=[u for u in UNITS if "type_traits" not in u], harness_defines={"KIND": kind, "NFULL": nfull},
+                        unwind_default=64, stubs=["libc.c", "libc_loops.c"], flags=["--max-field-sensitivity-array-size", "300"],
+                        bounds="one %s registration from an arbitrary fill level: %d full 30-entry chunks + one chunk filled 0..30 (symbolic), spare chunk linked or not; ids %s" % (nm, nfull, rng),
+                        outside="named registrations at these fill levels (the duplicate search reads every entry); other chunk counts"))
+    for (kind, nm) in ((2, "interface"), (3, "basic")):
+        ex.append(Q("exhaust_%s" % nm, "C06/exhaust.c", units=[u for u in UNITS if "type_traits" not in u], harness_defines={"KIND": kind, "NFULL": 0},
+                    unwind_default=68, stubs=["libc.c", "libc_loops.c"], flags=["--max-field-sensitivity-array-size", "300"],
+                    bounds="one %s registration from every fill level up to and including the exhausted range (64 ids)" % nm, outside="named registrations at these fill levels"))
+    return ex + [
         Q("builtin_lookup", "C06/builtin.c", unwind_default=40, unwind={"strlen": 12, "strcmp": 12, "strncmp": 12, "memcpy": 30, "memset": 30, "memmove": 30},
           bounds="every id 0..0x1100 on the fresh registry", outside="registry states after registrations (register query)", **common),
     ] + [
